@@ -13,10 +13,8 @@ import (
 	"math/rand"
 	"os"
 	"runtime/debug"
-	"sort"
 	"strconv"
 	"strings"
-	"sync"
 	"sync/atomic"
 	"time"
 
@@ -37,32 +35,19 @@ func (constSource) Int63() int64   { return int64(0x80000001) << 31 }
 func (constSource) Uint64() uint64 { return uint64(0x80000001) << 32 }
 func (constSource) Seed(int64)     {}
 
-type pending struct {
-	key    string
-	mask   uint64
-	fp     string
-	detail string
-	replay interface{}
-}
-
 type checker struct {
 	r       *vlib.Run
 	dir     string
 	items   []dnsgen.Item
 	queries []dnsgen.Query
 
-	minimal map[string][]uint64 // failure key -> item sets of the minimal failing files found at lower levels
+	min *dnsgen.Minimizer
 
-	mu      sync.Mutex
-	pend    []pending
-	seen    map[uint64]struct{}
 	files   int64
 	stores  int64
 	serves  int64
 	evals   int64
 	nontriv int64
-	failing int64
-	nonmin  int64
 	skipped int64
 }
 
@@ -70,15 +55,6 @@ func hash64(s string) uint64 {
 	h := fnv.New64a()
 	h.Write([]byte(s))
 	return h.Sum64()
-}
-
-func hasSubset(masks []uint64, m uint64) bool {
-	for _, x := range masks {
-		if x&m == x && x != m {
-			return true
-		}
-	}
-	return false
 }
 
 var profOpen, profAsk, profClose [3]int64 // debugging aid: wall time per phase and backend (C02_PROF)
@@ -115,24 +91,17 @@ func (c *checker) serveFile(f *dnsgen.File, variants []dnsgen.Variant, clients [
 }
 
 func (c *checker) report(f *dnsgen.File, a, b string, kind, qname, qtype, client, detail string) {
-	atomic.AddInt64(&c.failing, 1)
-	key := fmt.Sprintf("%s-vs-%s/%s/%s/%s/%s", a, b, kind, qname, qtype, client)
-	mask := dnsgen.Mask(f.Sel)
-	if hasSubset(c.minimal[key], mask) {
-		atomic.AddInt64(&c.nonmin, 1)
-		return
-	}
-	fp := fmt.Sprintf("differ/%s-vs-%s/%s/%s/%s/%s/%s", a, b, kind, f.Key(), qname, qtype, client)
-	p := pending{key: key, mask: mask, fp: fp,
-		detail: fmt.Sprintf("items=%s query=%s %s client=%s\n%s", f.Key(), qname, qtype, client, detail),
-		replay: map[string]interface{}{"items": f.IDs, "qname": qname, "qtype": qtype, "client": client, "a": a, "b": b, "data_file": string(f.Text())}}
-	c.mu.Lock()
-	c.pend = append(c.pend, p)
-	c.mu.Unlock()
+	c.min.Report(dnsgen.Failure{
+		Key:    fmt.Sprintf("%s-vs-%s/%s/%s/%s/%s", a, b, kind, qname, qtype, client),
+		Mask:   dnsgen.Mask(f.Sel),
+		FP:     fmt.Sprintf("differ/%s-vs-%s/%s/%s/%s/%s/%s", a, b, kind, f.Key(), qname, qtype, client),
+		Detail: fmt.Sprintf("items=%s query=%s %s client=%s\n%s", f.Key(), qname, qtype, client, detail),
+		Replay: map[string]interface{}{"items": f.IDs, "qname": qname, "qtype": qtype, "client": client, "a": a, "b": b, "data_file": string(f.Text())},
+	})
 }
 
 // checkFile runs one file through all variants and compares.
-func (c *checker) checkFile(f *dnsgen.File, withOptions bool) {
+func (c *checker) checkFile(f *dnsgen.File, withOptions bool) (sample interface{}) {
 	atomic.AddInt64(&c.files, 1)
 	clients := dnsgen.Clients(f.HasECS)
 	amb := dnsgen.AmbiguousTargets(f.Lines, dnsgen.Locations)
@@ -164,7 +133,7 @@ func (c *checker) checkFile(f *dnsgen.File, withOptions bool) {
 		if len(f.Sel) == 0 {
 			vlib.Infra("the skeleton does not compile: %v", sv[0].err)
 		}
-		return
+		return nil
 	}
 	localSeen := map[uint64]struct{}{}
 	for _, p := range pairs {
@@ -195,18 +164,9 @@ func (c *checker) checkFile(f *dnsgen.File, withOptions bool) {
 	atomic.AddInt64(&c.nontriv, int64(len(localSeen)))
 	if A := byName["rdb-v2"]; A.err == nil {
 		qi := (len(f.Sel)*7 + int(dnsgen.Mask(f.Sel)%uint64(len(c.queries)))) % len(c.queries)
-		c.r.Sample(map[string]string{"items": f.Key(), "query": c.queries[qi].Name + " " + dnsgen.TypeName(c.queries[qi].Type), "client": clients[0].ID, "rdb-v2": A.resp[0][qi]})
+		return map[string]string{"items": f.Key(), "query": c.queries[qi].Name + " " + dnsgen.TypeName(c.queries[qi].Type), "client": clients[0].ID, "rdb-v2": A.resp[0][qi]}
 	}
-}
-
-// endLevel publishes the level's minimal failures.
-func (c *checker) endLevel() {
-	sort.Slice(c.pend, func(i, j int) bool { return c.pend[i].fp < c.pend[j].fp })
-	for _, p := range c.pend {
-		c.minimal[p.key] = append(c.minimal[p.key], p.mask)
-		c.r.Violate(p.fp, p.detail, p.replay)
-	}
-	c.pend = nil
+	return nil
 }
 
 func main() {
@@ -216,7 +176,7 @@ func main() {
 	dir, clean := vlib.Scratch("c02")
 	dnsfix.Quiet(dir)
 	items := dnsgen.Items()
-	c := &checker{r: r, dir: dir, items: items, queries: dnsgen.Queries(), minimal: map[string][]uint64{}, seen: map[uint64]struct{}{}}
+	c := &checker{r: r, dir: dir, items: items, queries: dnsgen.Queries(), min: dnsgen.NewMinimizer()}
 
 	for i, a := range os.Args {
 		if a == "--replay" && i+1 < len(os.Args) {
@@ -262,13 +222,30 @@ func main() {
 		}
 		levels = append(levels, ok)
 	}
+	// the empty item set first (if it fails, nothing else can be minimal for that
+	// observation), then all other files in one pool, smallest first
 	bySize := []int{}
+	var rest [][]int
 	for k, sets := range levels {
 		bySize = append(bySize, len(sets))
-		vlib.ParallelFor(len(sets), func(i int) {
-			c.checkFile(dnsgen.Build(items, sets[i]), k <= optK)
-		})
-		c.endLevel()
+		if k > 0 {
+			rest = append(rest, sets...)
+		}
+	}
+	r.Sample(c.checkFile(dnsgen.Build(items, nil), 0 <= optK))
+	c.min.SealBase()
+	samples := make([]interface{}, len(rest))
+	vlib.ParallelFor(len(rest), func(i int) {
+		samples[i] = c.checkFile(dnsgen.Build(items, rest[i]), len(rest[i]) <= optK)
+	})
+	for _, x := range samples {
+		if x != nil {
+			r.Sample(x)
+		}
+	}
+	minimal, nonmin := c.min.Minimal()
+	for _, f := range minimal {
+		r.Violate(f.FP, f.Detail, f.Replay)
 	}
 	clean()
 	if os.Getenv("C02_PROF") != "" {
@@ -297,8 +274,8 @@ func main() {
 	} else {
 		r.Set("compiler_option_variants", "none in the quick tier")
 	}
-	r.Set("failing_comparisons", c.failing)
-	r.Set("failing_comparisons_not_minimal", c.nonmin)
+	r.Set("failing_comparisons", c.min.Failing)
+	r.Set("failing_comparisons_not_minimal", nonmin)
 	r.Set("max_answer", dnsgen.MaxAnswer)
 	r.Set("rule", fmt.Sprintf("data file = skeleton (apex of example.com, resolver map m1 on the apex and its wildcard, aa/bb subnets, one probe address per location) + every compatible subset of <=%d items of the %d-item optional alphabet and additionally every subset of <=%d of its %d core items (quick: 1 and 2, thorough: 2 and 3); each file is compiled by cdb.CreateCDBFromReader and rdb.Compile (v1 keys, v2 keys) and opened by dnsserver.NewFBDNSDBBasic+Load; every (query name of the %d-name closed universe) x (9 query types) x (client) goes through the real ServeDNS with maxAnswer=%d and a constant random source; states = data files; transitions = queries served; evaluations = pairwise comparisons of canonical responses (rcode, flags, question, sections as multisets, OPT/ECS); nontrivial = distinct (file, query, client, response) with a response other than REFUSED. In the additional section the rdata of an address at a name with more than one visible address of that family is not compared (the server draws one at random by design). Only minimal failing files are reported: a file none of whose sub-files fails for the same backend pair, kind, query and client.", kAll, len(items), kCore, len(core), len(dnsgen.Names()), dnsgen.MaxAnswer))
 	r.Assume = []string{
@@ -329,10 +306,10 @@ func selByIDs(items []dnsgen.Item, ids []string) []int {
 func runOnly(c *checker, only string) {
 	f := dnsgen.Build(c.items, selByIDs(c.items, strings.Split(only, ",")))
 	c.checkFile(f, os.Getenv("C02_OPTIONS") != "")
-	sort.Slice(c.pend, func(i, j int) bool { return c.pend[i].fp < c.pend[j].fp })
 	fmt.Printf("%s", f.Text())
-	for _, p := range c.pend {
-		fmt.Printf("%s\n  %s\n", p.fp, strings.ReplaceAll(p.detail, "\n", "\n  "))
+	l, _ := c.min.Minimal()
+	for _, p := range l {
+		fmt.Printf("%s\n  %s\n", p.FP, strings.ReplaceAll(p.Detail, "\n", "\n  "))
 	}
-	fmt.Printf("%d disagreements\n", len(c.pend))
+	fmt.Printf("%d disagreements\n", len(l))
 }
